@@ -21,9 +21,11 @@ type Env struct {
 	frame         *frame
 	head          *ssa.BasicBlock
 	localOverride map[*ssa.Phi]Val
+	retBlock      *ssa.BasicBlock // postcondition at this return site: locals must be defined on every path to it
 	allocPre      string // for fresh(): allocation counter before the call
 	probes        []Probe
 	depth         int
+	outOfScope    bool // a local was referenced at a point its definition does not dominate
 }
 
 // SVal is the result of evaluating a contract expression.
@@ -337,6 +339,12 @@ func (env *Env) local(name string) (Val, bool) {
 	if found != nil {
 		if c, ok := found.(*ssa.Const); ok {
 			return env.x.constVal(c), true
+		}
+		if env.retBlock != nil {
+			if vi, ok := found.(ssa.Instruction); ok && vi.Block() != nil && !vi.Block().Dominates(env.retBlock) {
+				env.outOfScope = true
+				return Val{}, false
+			}
 		}
 		return f.vals[found], true
 	}
@@ -841,6 +849,32 @@ func (env *Env) callSpec(e *ECall) (SVal, error) {
 		}
 		a := env.st.Get(x.mvName(mt, ls[0].Path), "(Array Int (Array "+ks+" "+ls[0].Sort+"))")
 		return SVal{Val: Val{L: []string{Select(a, v.L[0])}}, ghostSort: "(Array " + ks + " " + ls[0].Sort + ")"}, nil
+	case "allocated":
+		// the reference denotes an object that exists in the current state (or nil)
+		v, err := env.evalRV(e.Args[0])
+		if err != nil {
+			return SVal{}, err
+		}
+		if len(v.L) < 1 {
+			return SVal{}, fmt.Errorf("allocated() wants a reference")
+		}
+		r := v.L[0]
+		if len(v.L) == 2 {
+			r = v.L[1]
+		}
+		return boolV(And("(<= 0 "+r+")", "(< "+r+" "+env.st.Get(allocName, "Int")+")")), nil
+	case "chr":
+		a, err := str1(0)
+		if err != nil {
+			return SVal{}, err
+		}
+		return SVal{Val: Val{Typ: tString, L: []string{"(str.from_code " + a + ")"}}}, nil
+	case "code":
+		a, err := str1(0)
+		if err != nil {
+			return SVal{}, err
+		}
+		return intV("(str.to_code " + a + ")"), nil
 	case "unboxString":
 		v, err := env.evalRV(e.Args[0])
 		if err != nil {
@@ -925,7 +959,7 @@ func (env *Env) callSpec(e *ECall) (SVal, error) {
 		}
 		args = append(args, v)
 	}
-	if sf.Uninterp {
+	if sf.Uninterp || (sf.Opaque && !x.revealed[sf.Name]) {
 		return env.callUninterp(sf, args)
 	}
 	if env.depth > 20 {
